@@ -123,6 +123,7 @@ func run(repo, prop, tier, evPath, verifDir string, seed int, rules []ruleSpec, 
 	for _, r := range rules {
 		n0 := len(c.obls)
 		r.run(c, prop)
+		c.applyTableOverrides(n0)
 		nd, nv, nn, nu := 0, 0, 0, 0
 		for _, o := range c.obls[n0:] {
 			if o.Control {
